@@ -62,17 +62,20 @@ def main():
         first = meta.get("caught_by_first_evaluation") or []
         now = meta.get("caught_by") or []
         own = "yes" if prop in now else ("not claimed (see meta.json)" if meta.get("not_claimed") else "NO")
-        srows.append(f"| {name} | {prop} | {meta.get('summary', '')[:100]} | {', '.join(first) or '-'} | {', '.join(now) or '-'} | {own} |")
+        srows.append(f"| {name} | {prop} | {meta.get('summary', '')[:100]} | {', '.join(first) or '-'} | {', '.join(now) or '-'} | {own} | {meta.get('evaluated_with_verif_commit', '?')} |")
     with open(os.path.join(VERIF, "seeded", "README.md"), "w") as f:
         f.write("# Seeded changes\n\nEach directory holds a change to robotools written by an independent sub-agent (given only the text of one\n"
                 "property and a scratch git worktree of /repo), `demo.py` (fails with the change, passes without), `notes.md` (the author's\n"
                 "description of what it needs to manifest) and `meta.json`. None of them is ever committed to /repo. Every change was\n"
                 "confirmed with `tools/eval_mutant.py` (patch applies to a scratch copy, repository suite stays green, demo fails with and\n"
                 "passes without the change) before it was kept. Re-evaluate with `tools/eval_mutant.py seeded/<id>`.\n\n"
-                "*first evaluation* = the checks that reported the change when it arrived (the machinery was being extended while the\n"
-                f"evaluations ran, so this column is approximate); *now* = /verif commit {commit}.\n"
-                "What was strengthened after a miss is listed in DESIGN.md section 11.\n\n"
-                "| id | property | change | reported at first evaluation | reported now | by its own property's check |\n|---|---|---|---|---|---|\n")
+                "*first evaluation* = the checks that reported the change when it arrived (rounds 1-6: the machinery was being extended\n"
+                "while the evaluations ran, so this column is approximate; round 7: all 20 checks of a frozen copy of the machinery as\n"
+                "committed before the round; round 8: the check of the change's own property only, frozen likewise); *latest* = the most\n"
+                "recent complete evaluation of the change against all 20 quick checks, with the /verif commit it was made with in the last\n"
+                "column (the final evaluation re-ran the natural mutants, rounds 7 and 8 and every neutral refactoring, and as many of the\n"
+                "older rounds as the time allowed).  What was strengthened after a miss is listed in DESIGN.md sections 11 and 15.\n\n"
+                "| id | property | change | reported at first evaluation | reported at the latest evaluation | by its own property's check | commit |\n|---|---|---|---|---|---|---|\n")
         f.write("\n".join(srows) + "\n")
     nrows = []
     for d in sorted(glob.glob(os.path.join(VERIF, "selftest", "neutral", "N*"))):
